@@ -1,7 +1,7 @@
 import RpmVerif.Driver.Bld
 import RpmVerif.Model.Cpio
 /-! Driver for C11. Op `repro <cfg> [sign=..] [children=n]`. Observation
-`ok paysha=… archsha=… runs=<n> distinct=<k> hdr=<fnv> bt=<build time> mt=<max file mtime> st=<signature time|-> cmt=<max c_mtime of the cpio entries|->`. -/
+`ok paysha=… archsha=… runs=<n> distinct=<k> hdr=<fnv> bt=<build time> mt=<max file mtime> st=<signature time|-> cmt=<max c_mtime of the cpio entries|-> sto=<signatures under OPENPGP: count:times:same-blob-as-legacy-tag|->`. -/
 namespace RpmVerif.Driver.C11
 open RpmVerif.Hdr RpmVerif.Bld RpmVerif.Driver RpmVerif.Driver.Bld
 
@@ -27,9 +27,11 @@ def handle (_op : String) (args : List String) (impl : String) : String :=
     let mt := (r.cfg.files.map fun f => clampMtime r.cfg.sourceDate f.mtime).foldl max 0
     let signed := args.any (·.startsWith "sign=")
     let st := if signed then toString bt else "-"
+    -- `sigtime_clamped`: ONE signature, base64 under OPENPGP, the same packet raw under the legacy tag, created at `bt`
+    let sto := if signed then s!"1:{bt}:1" else "-"
     -- what the per-file `payload::Builder` of the model puts into c_mtime (Model/Cpio.lean `builderMeta`)
     let cmt := (r.cfg.files.map fun f => (RpmVerif.Cpio.builderMeta 0 0 1 ⟨f.cpioPath, f.mode, []⟩).mtime).foldl max 0
-    let m := s!"ok paysha={paysha} archsha={archsha} runs={tok itoks "runs"} distinct=1 hdr={hex16 (fnv (writeHeader hdr))} bt={bt} mt={mt} st={st} cmt={cmt}"
+    let m := s!"ok paysha={paysha} archsha={archsha} runs={tok itoks "runs"} distinct=1 hdr={hex16 (fnv (writeHeader hdr))} bt={bt} mt={mt} st={st} cmt={cmt} sto={sto}"
     let sd := r.cfg.sourceDate.getD 0
     let le (s : String) : Bool := match s.toNat? with | some n => n ≤ sd | none => s == "-"
     let v :=
@@ -37,6 +39,7 @@ def handle (_op : String) (args : List String) (impl : String) : String :=
       else if !le (tok itoks "bt") then "fails:buildtime-after-source-date"
       else if !le (tok itoks "mt") then "fails:mtime-after-source-date"
       else if !le (tok itoks "st") then "fails:sigtime-after-source-date"
+      else if !(((((tok itoks "sto").splitOn ":").getD 1 "-").splitOn "+").all le) then "fails:sigtime-after-source-date"
       -- the archive's own time stamps (the builder writes none: `payload::Builder` leaves c_mtime at 0)
       else if !le (tok itoks "cmt") then "fails:cpio-mtime-after-source-date"
       else "holds"
